@@ -325,6 +325,13 @@ def fold_bool(c):
         return ("bool", len(c) > 1)
     if h == "cmp":
         a, b = c[2], c[3]
+        if c[1] in ("Is", "IsNot", "Eq", "NotEq") and (a == T.NONE or b == T.NONE):
+            # identity / equality with a literal None: decided when the other side is None itself or a value that cannot be None
+            o = b if a == T.NONE else a
+            same = True if o == T.NONE else (False if (o[0] in ("num", "str", "bool", "tuple", "list", "dict", "epoch", "angle", "add", "mul", "pow")
+                                                       or is_numeric_term(o)) else None)
+            if same is not None:
+                return ("bool", same if c[1] in ("Is", "Eq") else not same)
         if c[1] in ("In", "NotIn") and a[0] == "str" and b[0] == "dict":
             present = any(k == a for k, _ in b[1])
             return ("bool", present if c[1] == "In" else not present)
